@@ -455,13 +455,59 @@ func init() {
 			"a client that restarts from zero without asking to resume while a partial file exists is outside the property's quantifier (the server appends); not generated",
 			"file contents are pseudo-random so that a shifted, repeated or dropped block changes the comparison",
 			"information forks sent by the client are well-formed (name + 74 < 65536)",
+			"uploaded file names are at most 244 bytes (240 generated) in every family except name-too-long-witness (known finding name-too-long-for-incomplete-suffix: <name>.incomplete must fit the file system's 255-byte name limit)",
 		}
 		x.Add(&Family{Name: "upload-every-cut", Quick: 16, Thor: 96, Run: runC09EveryCut})
 		// Witness of the `.incomplete` name collision: recorded in known_findings.json (C09, key incomplete-suffix-collision).
 		// It prints a KNOWN-FINDING line on every run; if the collision is ever repaired this family must pass.
 		x.Add(&Family{Name: "incomplete-suffix-witness", Quick: 2, Thor: 4, Run: runC09SuffixWitness})
+		x.Add(&Family{Name: "name-too-long-witness", Quick: 3, Thor: 4, Run: runC09NameTooLong})
 		x.Add(&Family{Name: "upload-histories", Quick: 48, Thor: 480, Run: runC09Histories})
 	}
+}
+
+// runC09NameTooLong: KNOWN FINDING name-too-long-for-incomplete-suffix.  A single-file upload of a name of
+// 245..255 bytes: the request is granted, the transfer handler fails to open <name>.incomplete (beyond the file
+// system's 255-byte name limit), and the file the client sent never appears.  Only the property's own predicate
+// is evaluated (the model has no name-length limit), under exactly that key.
+func runC09NameTooLong(c *Case) {
+	L := []int{245, 250, 255}[c.Idx%3]
+	if c.Idx >= 3 {
+		L = 245 + c.R.Intn(11)
+	}
+	ts, set, cc, _, done := c09Setup(c)
+	if ts == nil {
+		return
+	}
+	defer done()
+	name := fmt.Sprintf("file%d-", L)
+	for len(name) < L {
+		name += string(rune('a' + c.R.Intn(26)))
+	}
+	data := genData(c.R, 1+c.R.Intn(400))
+	res, _, _ := ts.Call(cc, mkTran(hotline.TranUploadFile, 5, fld(hotline.FieldFileName, []byte(name)), fld(hotline.FieldTransferSize, be32(len(data)))))
+	c.Note("file_name_bytes", L)
+	if len(res) != 1 || res[0].ErrorCode != [4]byte{} {
+		c.Note("reply", "refused or none")
+		c.Violation("name-too-long-for-incomplete-suffix", fmt.Sprintf("an upload request for a free name of %d bytes was not granted", L))
+		return
+	}
+	refB, _ := getField(&res[0], hotline.FieldRefNum)
+	var ref [4]byte
+	copy(ref[:], refB)
+	st := uploadStreamBytes(2, defaultInfoSpec([]byte(name), make([]byte, 8), []byte("TEXT"), []byte("ttxt")), data, nil)
+	x := set.start(ref, newDlgConn(append(preambleBytes(ref, len(st)), st...), nil, nil))
+	if !x.waitBody() {
+		c.Violation("transfer-handler-hangs", "the upload transfer did not finish")
+		return
+	}
+	c.Note("listing", listDir(ts.Root))
+	got, has := readOpt(filepath.Join(ts.Root, name))
+	if !has || !bytesEq(got, data) {
+		c.Violation("name-too-long-for-incomplete-suffix", fmt.Sprintf("an uncut single-file upload of a name of %d bytes did not publish the file the client sent", L))
+	}
+	c.Nontrivial(fmt.Sprintf("toolong|%d", L))
+	c.Dist("name-too-long-witness")
 }
 
 // runC09SuffixWitness: a complete file named `a.txt.incomplete`, then an upload of `a.txt`.
